@@ -289,6 +289,11 @@ PRED = {
 }
 
 
+_ABSENT = object()
+# what the attribute of an absent key may read: nothing, or its declared default
+DEFAULTS_A = {"age": [0], "uid": [1], "fin": [4]}
+
+
 def invariant(cls, inst, opt_expr, uid0, base):
     """-> list of (kind, message) violations of the statement's invariant on one instance"""
     if _CUR_MODEL[0] == "B":
@@ -356,6 +361,17 @@ def invariant(cls, inst, opt_expr, uid0, base):
                         bad.append(("views-disagree", f"s.{attr} == {getattr(inst, attr)!r} but s[{out!r}] == {view[out]!r}"))
                 except Exception as e:
                     bad.append(("getattr-raises", f"s.{attr} raised {type(e).__name__} although the key is present"))
+            else:
+                # the key is absent: the attribute view must not serve a value of an earlier state
+                try:
+                    val = getattr(inst, attr)
+                except AttributeError:
+                    val = _ABSENT
+                except Exception as e:
+                    bad.append(("getattr-raises", f"s.{attr} raised {type(e).__name__}"))
+                    val = _ABSENT
+                if val is not _ABSENT and canon(val) not in [canon(x) for x in DEFAULTS_A.get(attr, [])]:
+                    bad.append(("stale-attribute", f"the key {out!r} is absent but s.{attr} still reads {val!r}"))
         sec = a.get("secret", "s")
         if not PRED["secret"](sec):
             bad.append(("unparsed-secret", f"secret attribute holds {sec!r}"))
